@@ -25,3 +25,66 @@ package batch
 //@   loop 1
 //@     invariant isnil(newMap) ==> (forall kk types.String :: $done[kk] ==> cloneSub#0(t.m[kk], k, v) == t.m[kk])
 //@     invariant !isnil(newMap) ==> ((forall kk types.String :: has(newMap, kk) == has(t.m, kk)) && (forall kk types.String :: has(t.m, kk) ==> newMap[kk] == ($done[kk] ? cloneSub#0(t.m[kk], k, v) : t.m[kk])))
+
+// ------------------------------------------- final authorization (C05)
+// The decision rule batch applies to the residual policies is the rule of
+// cedar.Authorize (C02): deny unless some permit is satisfied and no forbid
+// is; reasons are the satisfied policies of the deciding effect; a policy
+// whose evaluation fails is reported in Errors and never satisfied.
+//@ spec func bSat(po *idEvaler, env eval.Env) bool = okBool(po.Evaler.eval, env) && vBool(po.Evaler.eval, env)
+//@ spec func bErr(po *idEvaler, env eval.Env) bool = !okBool(po.Evaler.eval, env)
+//@ spec func bForbid(po *idEvaler) bool = !po.Policy.Effect
+//@ spec func bAnyForbid(ps map[types.PolicyID]*idEvaler, env eval.Env) bool = exists id types.PolicyID :: has(ps, id) && bForbid(ps[id]) && bSat(ps[id], env)
+//@ spec func bAnyPermit(ps map[types.PolicyID]*idEvaler, env eval.Env) bool = exists id types.PolicyID :: has(ps, id) && !bForbid(ps[id]) && bSat(ps[id], env)
+//@ spec func bHasReason(rs []types.DiagnosticReason, id types.PolicyID) bool = exists k int :: 0 <= k && k < len(rs) && rs[k].PolicyID == id
+//@ spec func bHasError(es []types.DiagnosticError, id types.PolicyID) bool = exists k int :: 0 <= k && k < len(es) && es[k].PolicyID == id
+//@ func isAuthorized
+//@   props C05
+//@   results d, diag
+//@   requires forall id types.PolicyID :: has(ps, id) ==> (ps[id] != nil && ps[id].Policy != nil)
+//@   ensures decision: d == (bAnyPermit(ps, env) && !bAnyForbid(ps, env))
+//@   ensures reasons: forall id types.PolicyID :: bHasReason(diag.Reasons, id) == (has(ps, id) && bSat(ps[id], env) && (bAnyForbid(ps, env) ? bForbid(ps[id]) : !bForbid(ps[id])))
+//@   ensures errors: forall id types.PolicyID :: bHasError(diag.Errors, id) == (has(ps, id) && bErr(ps[id], env))
+//@   loop 1
+//@     invariant forall id types.PolicyID :: bHasReason(forbids, id) == ($done[id] && bSat(ps[id], env) && bForbid(ps[id]))
+//@     invariant forall id types.PolicyID :: bHasReason(permits, id) == ($done[id] && bSat(ps[id], env) && !bForbid(ps[id]))
+//@     invariant forall id types.PolicyID :: bHasError(diag.Errors, id) == ($done[id] && bErr(ps[id], env))
+//@     invariant len(diag.Reasons) == 0
+//@     invariant (len(forbids) > 0) == (exists id types.PolicyID :: $done[id] && bSat(ps[id], env) && bForbid(ps[id]))
+//@     invariant (len(permits) > 0) == (exists id types.PolicyID :: $done[id] && bSat(ps[id], env) && !bForbid(ps[id]))
+
+// Every residual policy is compiled exactly like cedar.Policy compiles it.
+//@ func batchCompile
+//@   props C05
+//@   modifies be
+//@   requires be != nil && (forall k types.PolicyID :: has(be.policies, k) ==> be.policies[k] != nil)
+//@   ensures be.compiled && be.policies == old(be.policies) && be.env == old(be.env)
+//@   ensures !old(be.compiled) ==> (forall k types.PolicyID :: has(be.evalers, k) == has(be.policies, k))
+//@   ensures !old(be.compiled) ==> (forall k types.PolicyID :: has(be.policies, k) ==> (be.evalers[k] != nil && be.evalers[k].Policy == be.policies[k] && be.evalers[k].Evaler.eval == eval.ToEval#0(eval.PolicyToNode#0(eval.foldPolicy#0(be.policies[k])).v)))
+//@   ensures old(be.compiled) ==> be.evalers == old(be.evalers)
+//@   loop 1
+//@     invariant be != nil && !isnil(be.evalers) && be.policies == old(be.policies) && be.env == old(be.env)
+//@     invariant forall k types.PolicyID :: has(be.evalers, k) == $done[k]
+//@     invariant forall k types.PolicyID :: $done[k] ==> (be.evalers[k] != nil && be.evalers[k].Policy == be.policies[k] && be.evalers[k].Evaler.eval == eval.ToEval#0(eval.PolicyToNode#0(eval.foldPolicy#0(be.policies[k])).v))
+
+// Enumeration level k leaves the evaluator state as it found it when it
+// returns normally (the residual policies, the substitution built so far and
+// the environment are restored), so sibling values start from the same state.
+//@ func doPartial
+//@   modifies be
+//@   ensures be.Variables == old(be.Variables) && be.Values == old(be.Values) && be.env == old(be.env) && be.callback == old(be.callback)
+//@ func fixIgnores
+//@   modifies be
+//@   ensures be.Variables == old(be.Variables) && be.Values == old(be.Values) && be.callback == old(be.callback) && be.policies == old(be.policies)
+//@ func diagnosticAuthzWithCallback
+//@   modifies be
+//@   results err
+//@   ensures be.Variables == old(be.Variables) && be.Values == old(be.Values) && be.env == old(be.env) && be.callback == old(be.callback) && be.policies == old(be.policies)
+//@ func doBatch
+//@   props C05
+//@   modifies be
+//@   requires be != nil
+//@   results err
+//@   ensures restored: err == nil ==> (be.Variables == old(be.Variables) && be.Values == old(be.Values) && be.env == old(be.env) && be.policies == old(be.policies) && be.callback == old(be.callback))
+//@   loop 1
+//@     invariant be != nil && prevState == entry(*be)
